@@ -171,6 +171,10 @@ def run(prog: Program, col: Collector, tier: str, refs: Optional[Refs] = None, c
     from . import c04
     c04._quantified_guards(prog, col, refs, cat, c04._subs_collections(prog, refs, cat))
 
+    # ---------------------------------------------------------------- R06.10
+    col.rule("R06.10", "the batch / event boundary of a tensor's array is computed from that tensor's own event rank", floor=2)
+    _boundary_of_own_tensor(prog, col, refs, cat)
+
     # ---------------------------------------------------------------- R06.5
     col.rule("R06.5", "dimension parameters are normalised modulo the rank in every branch before use as indices", floor=2)
     _axis_normalisation(prog, col, refs, cat)
@@ -656,3 +660,117 @@ def _cast_sizes(prog: Program, col: Collector, refs: Refs, cat: Catalogue):
                     col.ok(construct, f"every listed type has at most {K} values", f.loc(node))
     if n == 0:
         raise AnalysisError("no constant-size branch found in the find_domain rule of the cast op (anchor: _find_domain_astype)")
+
+
+# ---------------------------------------------------------------------- R06.10
+def _boundary_of_own_tensor(prog: Program, col: Collector, refs: Refs, cat: Catalogue):
+    """A Tensor's array has shape (batch dims of its inputs) + (its event shape).  Code that splits such an array at
+    `len(array.shape) - <event rank>` must take the event rank of the tensor the array belongs to: the rank of another tensor
+    (the other operand, the bound variable) puts the boundary in the wrong place whenever the two ranks differ."""
+    n = 0
+    for f in prog.funcs.values():
+        if isinstance(f.node, ast.Lambda):
+            continue
+        defs: Dict[str, List[ast.AST]] = {}
+
+        def add(name, val):
+            defs.setdefault(name, []).append(val)
+
+        for st in walk_no_nested(f.node):
+            if isinstance(st, ast.Assign):
+                for tg in st.targets:
+                    if isinstance(tg, ast.Name):
+                        add(tg.id, st.value)
+                    elif isinstance(tg, (ast.Tuple, ast.List)):
+                        if isinstance(st.value, (ast.Tuple, ast.List)) and len(tg.elts) == len(st.value.elts):
+                            for a, b in zip(tg.elts, st.value.elts):
+                                if isinstance(a, ast.Name):
+                                    add(a.id, b)
+                        elif isinstance(st.value, ast.Call) and (refs.resolve(st.value.func) or "").endswith("align_tensors") and len(tg.elts) == 2 \
+                                and isinstance(tg.elts[1], (ast.Tuple, ast.List)) and not any(isinstance(a, ast.Starred) for a in st.value.args):
+                            for a, b in zip(tg.elts[1].elts, st.value.args):
+                                if isinstance(a, ast.Name) and isinstance(b, ast.Name):
+                                    add(a.id, ast.Attribute(value=ast.Name(id=b.id, ctx=ast.Load()), attr="data", ctx=ast.Load()))
+                            if isinstance(tg.elts[0], ast.Name):
+                                add(tg.elts[0].id, st.value)
+                        else:
+                            for a in tg.elts:
+                                if isinstance(a, ast.Name):
+                                    add(a.id, st.value)
+            elif isinstance(st, ast.AugAssign) and isinstance(st.target, ast.Name):
+                add(st.target.id, st)
+            elif isinstance(st, ast.For):
+                for a in ast.walk(st.target):
+                    if isinstance(a, ast.Name):
+                        add(a.id, st)
+
+        def owner_of_array(e, depth=0):
+            """tensor (a name) whose array expression `e` is, or None"""
+            if depth > 4:
+                return None
+            if isinstance(e, ast.Attribute) and e.attr == "data" and isinstance(e.value, ast.Name):
+                return e.value.id
+            if isinstance(e, ast.Call) and (refs.resolve(e.func) or "").endswith("align_tensor") and len(e.args) >= 2 and isinstance(e.args[1], ast.Name):
+                return e.args[1].id
+            if isinstance(e, ast.Name):
+                owners = set()
+                for d in defs.get(e.id, []):
+                    # X = X.reshape(...) keeps the owner (the rank may change, but then the boundary is not recomputed from the old rank)
+                    if isinstance(d, ast.Call) and isinstance(d.func, ast.Attribute) and isinstance(d.func.value, ast.Name) and d.func.value.id == e.id:
+                        continue
+                    if isinstance(d, ast.Call) and any(isinstance(a, ast.Name) and a.id == e.id for a in d.args) and (cat.resolve_op(f.module, d.func) if isinstance(d.func, (ast.Name, ast.Attribute)) else None) is not None:
+                        continue  # X = ops.expand(X, ...)
+                    o = owner_of_array(d, depth + 1) if isinstance(d, ast.expr) else None
+                    owners.add(o)
+                return owners.pop() if len(owners) == 1 and None not in owners else None
+            return None
+
+        def owner_of_shape(e, depth=0):
+            if depth > 4:
+                return None
+            if isinstance(e, ast.Attribute) and e.attr == "shape":
+                return owner_of_array(e.value, depth + 1)
+            if isinstance(e, ast.Name):
+                owners = set()
+                for d in defs.get(e.id, []):
+                    if isinstance(d, ast.expr) and any(isinstance(x, ast.Name) and x.id == e.id for x in ast.walk(d)):
+                        continue  # shape = shape[:cut] + ... (self-derived)
+                    owners.add(owner_of_shape(d, depth + 1) if isinstance(d, ast.expr) else None)
+                return owners.pop() if len(owners) == 1 and None not in owners else None
+            return None
+
+        def rank_owner(e, depth=0):
+            """tensor whose EVENT rank the expression is: len(T.shape) / len(T.output.shape) or a local bound to it"""
+            if depth > 4:
+                return None
+            if isinstance(e, ast.Call) and isinstance(e.func, ast.Name) and e.func.id == "len" and len(e.args) == 1:
+                a = e.args[0]
+                if isinstance(a, ast.Attribute) and a.attr == "shape":
+                    if isinstance(a.value, ast.Name) and owner_of_array(a.value) is None and a.value.id in set(f.params) | set(defs):
+                        # T.shape of a funsor T (not of an array local)
+                        if owner_of_shape(a) is None:
+                            return a.value.id
+                    if isinstance(a.value, ast.Attribute) and a.value.attr == "output" and isinstance(a.value.value, ast.Name):
+                        return a.value.value.id
+            if isinstance(e, ast.Name):
+                owners = {rank_owner(d, depth + 1) if isinstance(d, ast.expr) else None for d in defs.get(e.id, [])}
+                return owners.pop() if len(owners) == 1 and None not in owners else None
+            return None
+
+        for b in walk_no_nested(f.node):
+            if not (isinstance(b, ast.BinOp) and isinstance(b.op, ast.Sub)):
+                continue
+            l = b.left
+            if not (isinstance(l, ast.Call) and isinstance(l.func, ast.Name) and l.func.id == "len" and len(l.args) == 1):
+                continue
+            arr_owner = owner_of_shape(l.args[0])
+            if arr_owner is None:
+                continue
+            r_owner = rank_owner(b.right)
+            if r_owner is None:
+                continue
+            n += 1
+            col.check(arr_owner == r_owner, f"{f.fq}::{norm(b)}", f"the array of `{arr_owner}` is split at its own event rank",
+                      f"`{norm(b)}` splits the array of `{arr_owner}` using the event rank of `{r_owner}`: the batch / event boundary is misplaced whenever the two "
+                      "ranks differ (dimensions are inserted or cut on the wrong side of the event shape)", f.loc(b))
+    col.cur.analysed["boundary_computations"] = n
